@@ -4,7 +4,9 @@ package saslx
 // in-memory connection, classifying its result, PRECIS through x/text.
 
 import (
+	"crypto/tls"
 	"encoding/base64"
+	"encoding/hex"
 	"errors"
 	"net/textproto"
 	"strconv"
@@ -113,4 +115,41 @@ func UnB64(s string) ([]byte, bool) {
 		return nil, false
 	}
 	return b, true
+}
+
+// ---- TLS connection states for the -PLUS mechanisms: one real handshake per protocol version and process ----
+var tlsStates = map[uint16]*tls.ConnectionState{}
+
+// TLSState returns the client side's ConnectionState of a real in-memory handshake of the given version.
+func TLSState(ver uint16) *tls.ConnectionState {
+	if st, ok := tlsStates[ver]; ok {
+		return st
+	}
+	c, _, err := NewTLSPair(ver)
+	if err != nil {
+		panic("tls pair: " + err.Error())
+	}
+	st := c.ConnectionState()
+	tlsStates[ver] = &st
+	return &st
+}
+
+// TLSArg renders what scramAuth reads from the state as a model case argument: "<v13>:<tls-unique|!>:<exporter|!>".
+func TLSArg(st *tls.ConnectionState) string {
+	if st == nil {
+		return "-"
+	}
+	v13 := "0"
+	if st.Version >= tls.VersionTLS13 {
+		v13 = "1"
+	}
+	u := "!"
+	if st.TLSUnique != nil {
+		u = hex.EncodeToString(st.TLSUnique)
+	}
+	e := "!"
+	if d, err := st.ExportKeyingMaterial("EXPORTER-Channel-Binding", []byte{}, 32); err == nil {
+		e = hex.EncodeToString(d)
+	}
+	return v13 + ":" + u + ":" + e
 }
